@@ -101,6 +101,12 @@ func newEventFromUntrustedJSONV3(eventJSON []byte, roomVersion IRoomVersion) (PD
 	eventJSON = CanonicalJSONAssumeValid(eventJSON)
 	res.eventJSON = eventJSON
 
+	// EventID(), Sign() and Redact() panic on an event that cannot be redacted (content that
+	// is not an object, numbers encoding/json cannot hold), so such events are refused here.
+	if _, err = roomVersion.RedactEventJSON(eventJSON); err != nil {
+		return nil, err
+	}
+
 	if err = checkEventContentHash(eventJSON); err != nil {
 		res.redacted = true
 
